@@ -105,12 +105,12 @@ theorem renameSym_var (tbl fin : List (String × String)) (v : String) :
   cases tbl.find? (fun e => e.1 = v) <;> rfl
 
 theorem renameSym_ter_none {tbl fin : List (String × String)} {t : String}
-    (_h1 : tbl.find? (fun e => e.1 = t) = none) (h2 : fin.find? (fun e => e.1 = t) = none) :
+    (h2 : fin.find? (fun e => e.1 = t) = none) :
     renameSym tbl fin (.ter t) = .ter t := by
   simp [renameSym, h2]
 
 theorem renameSym_ter_some {tbl fin : List (String × String)} {t : String} {e : String × String}
-    (_h1 : tbl.find? (fun e => e.1 = t) = none) (h2 : fin.find? (fun e => e.1 = t) = some e) :
+    (h2 : fin.find? (fun e => e.1 = t) = some e) :
     renameSym tbl fin (.ter t) = .var e.2 := by
   simp [renameSym, h2]
 
@@ -327,19 +327,18 @@ theorem valid_of_wf {H : CFG} (hH : H.WF) {p : Prod} (hp : p ∈ H.prods) : ∀ 
   | var v => exact hH.var_mem p hp v hs
   | ter t => exact hH.ter_mem p hp t hs
 
-theorem renameSym_op_ter {H : CFG} (hters : ∀ t ∈ H.ters, t ∉ H.vars) {idx : Nat} {t : String}
-    (ht : t ∈ H.ters) : renameSym (renameTable H.vars idx) [] (.ter t) = .ter t :=
-  renameSym_ter_none (find_renameTable_none (hters t ht)) (by simp)
+theorem renameSym_op_ter (tbl : List (String × String)) (t : String) :
+    renameSym tbl [] (.ter t) = .ter t :=
+  renameSym_ter_none (by simp)
 
 theorem op_fwd {G : CFG} {subst : List (String × CFG)} {b : String × CFG × Nat}
-    (hb : b ∈ blocks G.vars.length subst) (hwf : b.2.1.WF)
-    (hters : ∀ t ∈ b.2.1.ters, t ∉ b.2.1.vars) :
+    (hb : b ∈ blocks G.vars.length subst) (hwf : b.2.1.WF) :
     (∀ s w, b.2.1.Gen s w → Valid b.2.1 s → (G.substitute subst).Gen (renameSym (blkTbl b) [] s) w) ∧
     (∀ u w, b.2.1.GenList u w → (∀ s ∈ u, Valid b.2.1 s) →
       (G.substitute subst).GenList (u.map (renameSym (blkTbl b) [])) w) := by
   apply Clean.gen_ind
-  · intro t ht
-    rw [blkTbl, renameSym_op_ter hters ht]
+  · intro t _
+    rw [renameSym_op_ter]
     exact .ter t
   · intro h body w hp _ ih _
     rw [renameSym_var]
@@ -352,25 +351,24 @@ theorem op_fwd {G : CFG} {subst : List (String × CFG)} {b : String × CFG × Na
     exact .cons (ih₁ (hv s (by simp))) (ih₂ (fun x hx => hv x (List.mem_cons_of_mem _ hx)))
 
 theorem op_bwd {G : CFG} {subst : List (String × CFG)} (hG : G.WF)
-    (hwfs : ∀ e ∈ subst, e.2.WF) (htersS : ∀ e ∈ subst, ∀ t ∈ e.2.ters, t ∉ e.2.vars)
+    (hwfs : ∀ e ∈ subst, e.2.WF)
     {b : String × CFG × Nat} (hb : b ∈ blocks G.vars.length subst) :
     (∀ s' w, (G.substitute subst).Gen s' w → ∀ s, Valid b.2.1 s → s' = renameSym (blkTbl b) [] s →
       b.2.1.Gen s w) ∧
     (∀ u' w, (G.substitute subst).GenList u' w → ∀ u, (∀ s ∈ u, Valid b.2.1 s) →
       u' = u.map (renameSym (blkTbl b) []) → b.2.1.GenList u w) := by
   have hwf : b.2.1.WF := hwfs _ (mem_blocks hb).1
-  have hters : ∀ t ∈ b.2.1.ters, t ∉ b.2.1.vars := htersS _ (mem_blocks hb).1
   apply Clean.gen_ind
   · intro t s hs e
     cases s with
     | var v => rw [renameSym_var] at e; cases e
     | ter t' =>
-      rw [blkTbl, renameSym_op_ter hters hs] at e
+      rw [renameSym_op_ter] at e
       cases e
       exact .ter t
   · intro h' body' w hp _ ih s hs e
     cases s with
-    | ter t' => rw [blkTbl, renameSym_op_ter hters hs] at e; cases e
+    | ter t' => rw [renameSym_op_ter] at e; cases e
     | var v =>
       rw [renameSym_var] at e
       simp only [Sym.var.injEq] at e
@@ -466,23 +464,21 @@ structure OK (G : CFG) (subst : List (String × CFG)) : Prop where
   wfH : ∀ e ∈ subst, e.2.WF
   keys : (subst.map (·.1)).Nodup
   startH : ∀ e ∈ subst, e.2.start ≠ none
-  tersG : ∀ t ∈ G.ters, t ∉ G.vars
-  tersH : ∀ e ∈ subst, ∀ t ∈ e.2.ters, t ∉ e.2.vars
 
-theorem recv_ter_keep {G : CFG} {subst : List (String × CFG)} (ok : OK G subst) {t : String}
-    (ht : t ∈ G.ters) (hk : ∀ e ∈ subst, e.1 ≠ t) :
+theorem recv_ter_keep {G : CFG} {subst : List (String × CFG)} {t : String}
+    (hk : ∀ e ∈ subst, e.1 ≠ t) :
     renameSym (recvTbl G) (finalOf G subst) (.ter t) = .ter t := by
-  refine renameSym_ter_none (find_renameTable_none (ok.tersG t ht)) (find_fin_none _ ?_)
+  refine renameSym_ter_none (find_fin_none _ ?_)
   intro h
   obtain ⟨e, he, rfl⟩ := List.mem_map.1 h
   exact hk e he rfl
 
 theorem recv_ter_repl {G : CFG} {subst : List (String × CFG)} (ok : OK G subst) {t : String}
-    {H : CFG} (ht : t ∈ G.ters) (hk : (t, H) ∈ subst) :
+    {H : CFG} (hk : (t, H) ∈ subst) :
     ∃ i s, (t, H, i) ∈ blocks G.vars.length subst ∧ H.start = some s ∧
       renameSym (recvTbl G) (finalOf G subst) (.ter t) = .var (lookupName (blkTbl (t, H, i)) s) := by
   obtain ⟨i, s, h1, h2, h3⟩ := find_fin_some G.vars.length ok.keys ok.startH hk
-  exact ⟨i, s, h1, h2, renameSym_ter_some (find_renameTable_none (ok.tersG t ht)) h3⟩
+  exact ⟨i, s, h1, h2, renameSym_ter_some h3⟩
 
 theorem recv_fwd {G : CFG} {subst : List (String × CFG)} (ok : OK G subst) :
     (∀ s u, G.Gen s u → Valid G s → ∀ w, SW subst u w →
@@ -490,15 +486,15 @@ theorem recv_fwd {G : CFG} {subst : List (String × CFG)} (ok : OK G subst) :
     (∀ body u, G.GenList body u → (∀ s ∈ body, Valid G s) → ∀ w, SW subst u w →
       (G.substitute subst).GenList (body.map (renameSym (recvTbl G) (finalOf G subst))) w) := by
   apply Clean.gen_ind
-  · intro t ht w hw
+  · intro t _ w hw
     rcases sw_single_inv hw with ⟨hk, rfl⟩ | ⟨H, hk, hl⟩
-    · rw [recv_ter_keep ok ht hk]; exact .ter t
-    · obtain ⟨i, s, hb, hs, e⟩ := recv_ter_repl ok ht hk
+    · rw [recv_ter_keep hk]; exact .ter t
+    · obtain ⟨i, s, hb, hs, e⟩ := recv_ter_repl ok hk
       rw [e]
       obtain ⟨s', hs', hg⟩ := (lang_iff_gen H w).1 hl
       rw [hs] at hs'
       cases hs'
-      have := (op_fwd (G := G) hb (ok.wfH _ hk) (ok.tersH _ hk)).1 _ _ hg
+      have := (op_fwd (G := G) hb (ok.wfH _ hk)).1 _ _ hg
         ((ok.wfH _ hk).start_mem s hs)
       rwa [renameSym_var] at this
   · intro h body u hp _ ih _ w hw
@@ -526,12 +522,12 @@ theorem recv_bwd {G : CFG} {subst : List (String × CFG)} (ok : OK G subst) :
     | var v => rw [renameSym_var] at e; cases e
     | ter t' =>
       by_cases hk : ∀ e ∈ subst, e.1 ≠ t'
-      · rw [recv_ter_keep ok hs hk] at e
+      · rw [recv_ter_keep hk] at e
         cases e
         exact ⟨[t], .ter t, sw_single_keep hk⟩
       · simp only [ne_eq, not_forall, not_not] at hk
         obtain ⟨⟨t'', H⟩, he, rfl⟩ := hk
-        obtain ⟨i, s, _, _, e'⟩ := recv_ter_repl ok hs he
+        obtain ⟨i, s, _, _, e'⟩ := recv_ter_repl ok he
         rw [e'] at e; cases e
   · intro h' body' w hp hgl ih s hs e
     cases s with
@@ -556,15 +552,15 @@ theorem recv_bwd {G : CFG} {subst : List (String × CFG)} (ok : OK G subst) :
         exact ⟨u, .var (show (q.1, q.2) ∈ _ from hq) hu, hsw⟩
     | ter t =>
       by_cases hk : ∀ e ∈ subst, e.1 ≠ t
-      · rw [recv_ter_keep ok hs hk] at e
+      · rw [recv_ter_keep hk] at e
         cases e
       · simp only [ne_eq, not_forall, not_not] at hk
         obtain ⟨⟨t'', H⟩, he, rfl⟩ := hk
-        obtain ⟨i, sH, hb, hsH, e'⟩ := recv_ter_repl ok hs he
+        obtain ⟨i, sH, hb, hsH, e'⟩ := recv_ter_repl ok he
         rw [e'] at e
         simp only [Sym.var.injEq] at e
         have hg : (G.substitute subst).Gen (.var h') w := .var hp hgl
-        have := (op_bwd ok.wfG ok.wfH ok.tersH hb).1 _ _ hg (.var sH)
+        have := (op_bwd ok.wfG ok.wfH hb).1 _ _ hg (.var sH)
           ((ok.wfH _ he).start_mem sH hsH) (by rw [renameSym_var, e])
         have hl : H.Lang w := (lang_iff_gen H w).2 ⟨sH, hsH, this⟩
         exact ⟨[t''], .ter t'', sw_single_repl he hl⟩
@@ -769,49 +765,38 @@ theorem sw_replicate (T : String) (G : CFG) (n : Nat) : ∀ (w : List String),
         exact .repl (by simp) (hws v (by simp))
           ((ih _).2 ⟨ws, hl, rfl, fun x hx => hws x (List.mem_cons_of_mem _ hx)⟩)
 
-theorem unionT_ok (G H : CFG) (hG : G.WF) (hH : H.WF) (sG : G.start ≠ none) (sH : H.start ≠ none)
-    (tG : ∀ t ∈ G.ters, t ∉ G.vars) (tH : ∀ t ∈ H.ters, t ∉ H.vars) :
+theorem unionT_ok (G H : CFG) (hG : G.WF) (hH : H.WF) (sG : G.start ≠ none) (sH : H.start ≠ none) :
     OK unionT [("#0UNION#", G), ("#1UNION#", H)] where
   wfG := mk'_wf _ _ _ _
   wfH := by simp [hG, hH]
   keys := by simp only [List.map_cons, List.map_nil]; decide
   startH := by simp [sG, sH]
-  tersG := by decide
-  tersH := by simp only [List.mem_cons, List.mem_nil_iff, or_false, forall_eq_or_imp, forall_eq]; exact ⟨tG, tH⟩
 
-theorem concT_ok (G H : CFG) (hG : G.WF) (hH : H.WF) (sG : G.start ≠ none) (sH : H.start ≠ none)
-    (tG : ∀ t ∈ G.ters, t ∉ G.vars) (tH : ∀ t ∈ H.ters, t ∉ H.vars) :
+theorem concT_ok (G H : CFG) (hG : G.WF) (hH : H.WF) (sG : G.start ≠ none) (sH : H.start ≠ none) :
     OK concT [("#0CONC#", G), ("#1CONC#", H)] where
   wfG := mk'_wf _ _ _ _
   wfH := by simp [hG, hH]
   keys := by simp only [List.map_cons, List.map_nil]; decide
   startH := by simp [sG, sH]
-  tersG := by decide
-  tersH := by simp only [List.mem_cons, List.mem_nil_iff, or_false, forall_eq_or_imp, forall_eq]; exact ⟨tG, tH⟩
 
-theorem closT_ok (G : CFG) (hG : G.WF) (sG : G.start ≠ none) (tG : ∀ t ∈ G.ters, t ∉ G.vars) :
+theorem closT_ok (G : CFG) (hG : G.WF) (sG : G.start ≠ none) :
     OK closT [("#1CLOS#", G)] where
   wfG := mk'_wf _ _ _ _
   wfH := by simp [hG]
   keys := by simp only [List.map_cons, List.map_nil]; decide
   startH := by simp [sG]
-  tersG := by decide
-  tersH := by simp only [List.mem_cons, List.mem_nil_iff, or_false, forall_eq]; exact tG
 
-theorem posClosT_ok (G : CFG) (hG : G.WF) (sG : G.start ≠ none) (tG : ∀ t ∈ G.ters, t ∉ G.vars) :
+theorem posClosT_ok (G : CFG) (hG : G.WF) (sG : G.start ≠ none) :
     OK posClosT [("#1POSCLOS#", G)] where
   wfG := mk'_wf _ _ _ _
   wfH := by simp [hG]
   keys := by simp only [List.map_cons, List.map_nil]; decide
   startH := by simp [sG]
-  tersG := by decide
-  tersH := by simp only [List.mem_cons, List.mem_nil_iff, or_false, forall_eq]; exact tG
 
 theorem union_lang' (G H : CFG) (hG : G.WF) (hH : H.WF) (sG : G.start ≠ none) (sH : H.start ≠ none)
-    (tG : ∀ t ∈ G.ters, t ∉ G.vars) (tH : ∀ t ∈ H.ters, t ∉ H.vars)
     (w : List String) : (G.union H).Lang w ↔ G.Lang w ∨ H.Lang w := by
   unfold union
-  rw [substitute_lang_sw (unionT_ok G H hG hH sG sH tG tH)]
+  rw [substitute_lang_sw (unionT_ok G H hG hH sG sH)]
   simp only [unionT_lang]
   constructor
   · rintro ⟨u, rfl | rfl, h⟩
@@ -832,10 +817,10 @@ theorem union_lang' (G H : CFG) (hG : G.WF) (hH : H.WF) (sG : G.start ≠ none) 
     · exact ⟨_, Or.inr rfl, sw_single_repl (by simp) h⟩
 
 theorem concatenate_lang' (G H : CFG) (hG : G.WF) (hH : H.WF) (sG : G.start ≠ none)
-    (sH : H.start ≠ none) (tG : ∀ t ∈ G.ters, t ∉ G.vars) (tH : ∀ t ∈ H.ters, t ∉ H.vars)
+    (sH : H.start ≠ none)
     (w : List String) : (G.concatenate H).Lang w ↔ ∃ u v, w = u ++ v ∧ G.Lang u ∧ H.Lang v := by
   unfold concatenate
-  rw [substitute_lang_sw (concT_ok G H hG hH sG sH tG tH)]
+  rw [substitute_lang_sw (concT_ok G H hG hH sG sH)]
   simp only [concT_lang, exists_eq_left]
   constructor
   · intro h
@@ -854,10 +839,10 @@ theorem concatenate_lang' (G H : CFG) (hG : G.WF) (hH : H.WF) (sG : G.start ≠ 
     exact .repl (by simp) h1 (sw_single_repl (by simp) h2)
 
 theorem closure_lang' (G : CFG) (hG : G.WF) (sG : G.start ≠ none)
-    (tG : ∀ t ∈ G.ters, t ∉ G.vars) (w : List String) :
+    (w : List String) :
     G.closure.Lang w ↔ ∃ ws : List (List String), w = ws.flatten ∧ ∀ x ∈ ws, G.Lang x := by
   unfold closure
-  rw [substitute_lang_sw (closT_ok G hG sG tG)]
+  rw [substitute_lang_sw (closT_ok G hG sG)]
   simp only [closT_lang]
   constructor
   · rintro ⟨u, ⟨n, rfl⟩, h⟩
@@ -867,11 +852,11 @@ theorem closure_lang' (G : CFG) (hG : G.WF) (sG : G.start ≠ none)
     exact ⟨_, ⟨ws.length, rfl⟩, (sw_replicate _ _ _ _).2 ⟨ws, rfl, h1, h2⟩⟩
 
 theorem posClosure_lang' (G : CFG) (hG : G.WF) (sG : G.start ≠ none)
-    (tG : ∀ t ∈ G.ters, t ∉ G.vars) (w : List String) :
+    (w : List String) :
     G.posClosure.Lang w ↔
       ∃ ws : List (List String), ws ≠ [] ∧ w = ws.flatten ∧ ∀ x ∈ ws, G.Lang x := by
   unfold posClosure
-  rw [substitute_lang_sw (posClosT_ok G hG sG tG)]
+  rw [substitute_lang_sw (posClosT_ok G hG sG)]
   simp only [posClosT_lang]
   constructor
   · rintro ⟨u, ⟨n, rfl⟩, h⟩
